@@ -210,6 +210,8 @@ type LentImpl struct {
 	Nest *LentImpl
 	// ActivateYields forced scheduling decisions are taken inside Activate.
 	ActivateYields int
+	// SelfDoom: the object terminates itself from within Activate
+	SelfDoom bool
 	// RefuseEvery > 0: echo answers one token in RefuseEvery with an error
 	RefuseEvery int
 
@@ -232,6 +234,10 @@ func (l *LentImpl) Activate(a bus.Activation, h probe.LentSignalHelper) error {
 	l.mu.Unlock()
 	for i := 0; i < l.ActivateYields; i++ {
 		zzsim.Yield("h.activate")
+	}
+	if l.SelfDoom && a.Terminate != nil {
+		zzsim.Event("lent object %d terminates itself during its activation", l.Obj)
+		a.Terminate()
 	}
 	if l.Nest != nil && a.Service != nil {
 		id, err := a.Service.Add(probe.LentObject(l.Nest))
